@@ -45,6 +45,7 @@ func run(c *vf.Ctx) {
 	if e == nil {
 		return
 	}
+	go watchdog(c)
 	phase := map[string]float64{}
 	t0 := time.Now()
 	e.shortStrings()
@@ -96,5 +97,33 @@ func (e *env) report() {
 		if e.t.perEntry[k].Load() > e.t.accepted[k].Load() {
 			e.c.Outcome(k + ": returned an error")
 		}
+	}
+}
+
+// watchdog is NOT an oracle: no violation is ever derived from time. A parser loop that performs
+// no Read call cannot be seen by the step budget and would make the run hang forever; once the
+// run's own time budget has expired (the run is then "not exhaustive" anyway) and some call has
+// been in flight for more than five further minutes, the stuck inputs are printed and the
+// process ends with status 3 (inconclusive) instead of never ending.
+func watchdog(c *vf.Ctx) {
+	for {
+		time.Sleep(20 * time.Second)
+		if !c.Expired() {
+			continue
+		}
+		var stuck []*flight
+		inflight.Range(func(_, v any) bool {
+			if f := v.(*flight); time.Since(f.start) > 5*time.Minute {
+				stuck = append(stuck, f)
+			}
+			return true
+		})
+		if len(stuck) == 0 {
+			continue
+		}
+		for _, f := range stuck {
+			fmt.Fprintf(os.Stderr, "INCONCLUSIVE property=C45: %s has not returned after %s on input %q (hex %x)\n", f.entry, time.Since(f.start).Round(time.Second), f.what(), clip(f.input, 600))
+		}
+		os.Exit(3)
 	}
 }
